@@ -112,6 +112,23 @@ impl Store {
             ]
         });
         let index = SlabIndex(self.slab.insert(val) as u32);
+        #[cfg(feature = "verif-hooks")]
+        crate::verif::ev("store.slot", || {
+            vec![
+                self.slab[index.0 as usize].verif_serial,
+                u32::from(id) as i64,
+                index.0 as i64,
+            ]
+        });
+        #[cfg(feature = "verif-hooks")]
+        crate::verif::ev("store.inserted", || {
+            vec![
+                self.slab[index.0 as usize].verif_serial,
+                u32::from(id) as i64,
+                index.0 as i64,
+                self.slab.len() as i64,
+            ]
+        });
         assert!(self.ids.insert(id, index).is_none());
 
         Ptr {
@@ -267,6 +284,12 @@ where
     /// If the stream is already contained by the list, return `false`.
     pub fn push(&mut self, stream: &mut store::Ptr) -> bool {
         tracing::trace!("Queue::push_back");
+        #[cfg(feature = "verif-hooks")]
+        crate::verif::ev("queue.push", || {
+            let mut v = vec![crate::verif::queue_code(std::any::type_name::<N>())];
+            v.extend(stream.verif_life(stream.key().index.0 as i64));
+            v
+        });
 
         if N::is_queued(stream) {
             tracing::trace!(" -> already queued");
@@ -307,6 +330,12 @@ where
     /// If the stream is already contained by the list, return `false`.
     pub fn push_front(&mut self, stream: &mut store::Ptr) -> bool {
         tracing::trace!("Queue::push_front");
+        #[cfg(feature = "verif-hooks")]
+        crate::verif::ev("queue.push_front", || {
+            let mut v = vec![crate::verif::queue_code(std::any::type_name::<N>())];
+            v.extend(stream.verif_life(stream.key().index.0 as i64));
+            v
+        });
 
         if N::is_queued(stream) {
             tracing::trace!(" -> already queued");
@@ -348,6 +377,12 @@ where
     {
         if let Some(mut idxs) = self.indices {
             let mut stream = store.resolve(idxs.head);
+            #[cfg(feature = "verif-hooks")]
+            crate::verif::ev("queue.pop", || {
+                let mut v = vec![crate::verif::queue_code(std::any::type_name::<N>())];
+                v.extend(stream.verif_life(stream.key().index.0 as i64));
+                v
+            });
 
             if idxs.head == idxs.tail {
                 assert!(N::next(&stream).is_none());
@@ -410,6 +445,14 @@ impl<'a> Ptr<'a> {
     /// Remove the stream from the store
     pub fn remove(self) -> StreamId {
         #[cfg(feature = "verif-hooks")]
+        crate::verif::ev("store.free", || {
+            vec![
+                self.verif_serial,
+                u32::from(self.key.stream_id) as i64,
+                self.key.index.0 as i64,
+            ]
+        });
+        #[cfg(feature = "verif-hooks")]
         crate::verif::ev("store.remove", || {
             vec![
                 self.verif_serial,
@@ -418,6 +461,12 @@ impl<'a> Ptr<'a> {
                 isize::from(self.recv_flow.available()) as i64,
                 self.in_flight_recv_data as i64,
             ]
+        });
+        #[cfg(feature = "verif-hooks")]
+        crate::verif::ev("store.remove_at", || {
+            let mut v = self.verif_life(self.key.index.0 as i64);
+            v.push(self.store.ids.contains_key(&self.key.stream_id) as i64);
+            v
         });
         // The stream must have been unlinked before this point
         debug_assert!(!self.store.ids.contains_key(&self.key.stream_id));
@@ -433,6 +482,19 @@ impl<'a> Ptr<'a> {
     /// This will effectively remove the stream as far as the H2 protocol is
     /// concerned.
     pub fn unlink(&mut self) {
+        #[cfg(feature = "verif-hooks")]
+        crate::verif::ev("store.unlink", || {
+            let mut v = self.verif_life(self.key.index.0 as i64);
+            v.push(self.store.ids.contains_key(&self.key.stream_id) as i64);
+            v.push(
+                self.store
+                    .ids
+                    .get(&self.key.stream_id)
+                    .map(|i| i.0 as i64)
+                    .unwrap_or(-1),
+            );
+            v
+        });
         let id = self.key.stream_id;
         self.store.ids.swap_remove(&id);
     }
@@ -493,6 +555,23 @@ impl<'a> VacantEntry<'a> {
         // Insert the value in the slab
         let stream_id = value.id;
         let index = SlabIndex(self.slab.insert(value) as u32);
+        #[cfg(feature = "verif-hooks")]
+        crate::verif::ev("store.slot", || {
+            vec![
+                self.slab[index.0 as usize].verif_serial,
+                u32::from(stream_id) as i64,
+                index.0 as i64,
+            ]
+        });
+        #[cfg(feature = "verif-hooks")]
+        crate::verif::ev("store.inserted", || {
+            vec![
+                self.slab[index.0 as usize].verif_serial,
+                u32::from(stream_id) as i64,
+                index.0 as i64,
+                self.slab.len() as i64,
+            ]
+        });
 
         // Insert the handle in the ID map
         self.ids.insert(index);
@@ -545,5 +624,37 @@ where
             cur = N::next(s);
         }
         out
+    }
+}
+
+#[cfg(feature = "verif-hooks")]
+impl Key {
+    /// Slab index of the key (verification hook, read-only).
+    pub(crate) fn verif_index(&self) -> i64 {
+        self.index.0 as i64
+    }
+}
+
+#[cfg(feature = "verif-hooks")]
+impl Key {
+    /// Stream id guarding the key (verification hook, read-only).
+    pub(crate) fn verif_stream_id(&self) -> i64 {
+        u32::from(self.stream_id) as i64
+    }
+
+    /// Slab slot of the key (verification hook, read-only).
+    pub(crate) fn verif_slot(&self) -> i64 {
+        self.index.0 as i64
+    }
+}
+
+#[cfg(feature = "verif-hooks")]
+impl Store {
+    /// Does the key still name the record it was made for? (verification hook, read-only)
+    pub(crate) fn verif_key_is_live(&self, key: Key) -> bool {
+        self.slab
+            .get(key.index.0 as usize)
+            .map(|s| s.id == key.stream_id)
+            .unwrap_or(false)
     }
 }
